@@ -47,8 +47,8 @@ def run(tier="quick", seed=0, use_cache=True):
             tot[k] = tot.get(k, 0) + v
     oo = out["OO"]["stats"]
     res.units = {"translation_units": len(out), "functions_with_allocation": tot["functions"]}
-    res.floor("allocation result sites (OO)", oo["alloc_sites"], 70)
-    res.floor("BTree_Realloc sites (OO)", oo["realloc_sites"], 5)
+    res.floor("allocation result sites (OO)", oo["alloc_sites"], 50)
+    res.floor("BTree_Realloc sites (OO)", oo["realloc_sites"], 4)
     res.floor("free(member) sites (OO)", oo["free_member_sites"], 5)
     res.floor("raw allocator calls (OO)", oo["raw_sites"], 2)
     res.floor("translation units", len(out), 22)
